@@ -159,6 +159,45 @@ theorem modifiedBorda_mono (nC N : Nat) : ScorerMono (scorerFn .modifiedBorda nC
     have : (i : Rat) ≤ (n : Rat) := by exact_mod_cast hi
     push_cast; linarith
 
+/-! ### SequenceBased -/
+
+theorem scorerFn_sequence (seq : List Rat) (nC n j : Nat) :
+    scorerFn (.sequence seq) nC n j = if j < n then seq.getD j 0 else 0 := by
+  unfold scorerFn scorerList
+  simp only [Scorer.scores]
+  by_cases hj : j < n
+  · rw [if_pos hj, selectPadded_getD _ _ _ hj]
+  · rw [if_neg hj, List.getD_eq_getElem?_getD, List.getElem?_eq_none (by rw [selectPadded_length]; omega)]; rfl
+
+/-- a sequence of scores that never increases and is never negative -/
+def SeqOK (seq : List Rat) : Prop := seq.Pairwise (fun a b => b ≤ a) ∧ ∀ x ∈ seq, 0 ≤ x
+
+instance (seq : List Rat) : Decidable (SeqOK seq) := by unfold SeqOK; infer_instance
+
+theorem seq_getD_nonneg {seq : List Rat} (h : SeqOK seq) (j : Nat) : 0 ≤ seq.getD j 0 := by
+  rw [List.getD_eq_getElem?_getD]
+  cases hj : seq[j]? with
+  | none => simp
+  | some x => simp only [Option.getD_some]; exact h.2 x (List.mem_of_getElem? hj)
+
+theorem seq_getD_anti {seq : List Rat} (h : SeqOK seq) (j : Nat) : seq.getD (j + 1) 0 ≤ seq.getD j 0 := by
+  by_cases hj : j + 1 < seq.length
+  · rw [List.getD_eq_getElem?_getD, List.getD_eq_getElem?_getD, List.getElem?_eq_getElem hj,
+      List.getElem?_eq_getElem (by omega : j < seq.length)]
+    simp only [Option.getD_some]
+    exact List.pairwise_iff_getElem.mp h.1 j (j + 1) (by omega) hj (by omega)
+  · have : seq.getD (j + 1) 0 = 0 := by
+      rw [List.getD_eq_getElem?_getD, List.getElem?_eq_none (by omega)]; rfl
+    rw [this]; exact seq_getD_nonneg h j
+
+theorem sequence_mono (seq : List Rat) (h : SeqOK seq) (nC N : Nat) : ScorerMono (scorerFn (.sequence seq) nC) N := by
+  apply mono_of_prefix _ (fun j => seq.getD j 0) N
+  · intro n j _ hj; rw [scorerFn_sequence, if_pos hj]
+  · intro n j hj
+    rw [scorerFn_sequence, scorerFn_sequence, if_pos hj, if_pos (by omega)]
+    exact seq_getD_anti h j
+  · intro n j hj; rw [scorerFn_sequence, if_pos hj]; exact seq_getD_nonneg h j
+
 /-! ### acceptance -/
 
 theorem accepts_of (sc : Scorer) (hg : sc ≠ .geometric 0) : Accepts sc := by
